@@ -90,7 +90,9 @@ structure Sem (G : Graph S) where
   Λ : Nat → Nat → Tensor S → Tensor S
   κ : Nat → Bool
   slotDims : ∀ n s, s ∈ G.kids n → s.dims = dimsOf s.node
-  slotKeep : ∀ n s, s ∈ G.kids n → s.tracked = true → s.keep = κ s.node
+  /-- a tracked slot carries the keep flag `κ` of its node — except slots pointing to leaves, whose
+      keep flag is irrelevant (a node without stored operands always stores its gradient) -/
+  slotKeep : ∀ n s, s ∈ G.kids n → s.tracked = true → (G.kids s.node = [] ∨ s.keep = κ s.node)
   /-- node dimensions are valid array dimensions -/
   dimsValid : ∀ n, dimsOf n ≠ [] ∧ ∀ d ∈ dimsOf n, 1 ≤ d
   /-- a closure that answers, answers with one entry per operand; for a tracked operand the entry,
@@ -112,6 +114,14 @@ structure Sem (G : Graph S) where
 theorem Sem.addSame {G : Graph S} (sem : Sem G) (k : Nat) (x y : Tensor S)
     (hx : Shaped (sem.dimsOf k) x) (hy : Shaped (sem.dimsOf k) y) : add x y = .ok (tadd x y) :=
   add_same _ (sem.dimsValid k).1 (sem.dimsValid k).2 x y hx hy
+
+/-- the keep flag under which a leaf is entered is irrelevant: a node without stored operands always
+    stores -/
+theorem process_leaf_keep (G : Graph S) (f n : Nat) (k1 k2 : Bool) (σ : EState S) (h : G.kids n = []) :
+    process G f n k1 σ = process G f n k2 σ := by
+  cases f with
+  | zero => rfl
+  | succ f => simp [process, h]
 
 section pathsum
 variable [AddLaws S] {G : Graph S} (sem : Sem G) (ℓ j : Nat)
@@ -364,8 +374,12 @@ theorem deliver_T (f : Nat)
             simp [pendVal, σ2, upd, hm]
         have h3 : VInv sem ℓ σ3 ∧ T sem ℓ j B σ3 = T sem ℓ j B σ2 := by
           by_cases h1 : σ.cnt s.node = 1
-          · rw [if_pos h1, sem.slotKeep n s hsm ht] at hrec
-            exact ih s.node σ2 σ3 (by omega) (by omega) hv2 hrec
+          · rw [if_pos h1] at hrec
+            have hrec' : process G f s.node (sem.κ s.node) σ2 = .ok σ3 := by
+              rcases sem.slotKeep n s hsm ht with hleaf | hk
+              · rw [← hrec]; exact process_leaf_keep G f s.node _ _ σ2 hleaf
+              · rw [← hk]; exact hrec
+            exact ih s.node σ2 σ3 (by omega) (by omega) hv2 hrec'
           · rw [if_neg h1] at hrec
             simp only [pure, Except.pure, Except.ok.injEq] at hrec
             subst hrec
